@@ -113,22 +113,24 @@ func d2b(d float64, b []byte) (e, bits int, dblBits []byte) {
 		z |= exp_msk1
 	}
 
+	var top uint32 /* the most significant non-zero word of the significand */
 	y := d1
 	if y != 0 {
 		dblBits = b[:8]
 		k = lo0bits(y)
 		y >>= k
 		if k != 0 {
-			stuffBits(dblBits, 4, y|z<<(32-k))
+			y |= z << (32 - k)
 			z >>= k
-		} else {
-			stuffBits(dblBits, 4, y)
 		}
+		stuffBits(dblBits, 4, y)
 		stuffBits(dblBits, 0, z)
 		if z != 0 {
 			i = 2
+			top = z
 		} else {
 			i = 1
+			top = y
 		}
 	} else {
 		dblBits = b[:4]
@@ -137,6 +139,7 @@ func d2b(d float64, b []byte) (e, bits int, dblBits []byte) {
 		stuffBits(dblBits, 0, z)
 		k += 32
 		i = 1
+		top = z
 	}
 
 	if de != 0 {
@@ -144,7 +147,7 @@ func d2b(d float64, b []byte) (e, bits int, dblBits []byte) {
 		bits = p - k
 	} else {
 		e = de - bias - (p - 1) + 1 + k
-		bits = 32*i - hi0bits(z)
+		bits = 32*i - hi0bits(top)
 	}
 	return
 }
